@@ -6,6 +6,7 @@ Must be imported (and `install()` called) before anything imports `mqtt`:
 virtual reactor first puts every timer of the library on virtual time without
 touching the repository.
 """
+import math
 import os
 import sys
 import random as _stdrandom
@@ -46,7 +47,9 @@ def _make_reactor():
             # times are then exact in floating point.  Without this, exact virtual
             # due times make LoopingCall's modulo arithmetic fire a tick twice within
             # 1e-14 s, which no real reactor (that always fires a little late) does.
-            due = round((self.rightNow + delay) * self.GRID) / self.GRID
+            # Rounded UP to the grid (minus float noise): a real reactor may fire late, never early -- code that wakes
+            # up, finds its deadline a fraction of a microsecond away and sleeps again must make progress.
+            due = math.ceil((self.rightNow + delay) * self.GRID - 1e-6) / self.GRID
             if due < self.rightNow:
                 due = self.rightNow
             dc = MemoryReactorClock.callLater(self, due - self.rightNow, callable, *args, **kw)
